@@ -327,5 +327,56 @@ def r01_8(ctx):
     return r
 
 
+HT = S + "handle_timeout::{closure#0}"
+
+
+def r01_9(ctx):
+    """T3 expiry (RFC 4960 6.3.3): every outstanding chunk - not acked, not abandoned - is either marked for
+    retransmission or (burst limit) gets its timer restarted so that a later T3 marks it; a PR-SCTP chunk may be
+    abandoned instead. A chunk that is neither marked, re-timed nor abandoned on some path stays unacked for ever:
+    the receiver waits at that hole and nothing later is delivered."""
+    r = RuleResult("R01.9", "K4", "T3: every outstanding chunk is marked for retransmission, re-timed, or (PR-SCTP) abandoned")
+    b = ctx.body(HT)
+    r.scope.append(HT)
+    marks = [bi for bi, si, st in core.field_writes(b, lambda f: f == "needs_retransmit")
+             if si is not None and b.term_rvalue(st["rv"])[:2] == ("const", 1)]
+    retime = [bi for bi, si, st in core.field_writes(b, lambda f: f == "sent_time") if si is not None]
+    aband = [bi for bi, si, st in core.field_writes(b, lambda f: f == "abandoned")
+             if si is not None and b.term_rvalue(st["rv"])[:2] == ("const", 1)]
+    r.need("needs_retransmit = true sites in handle_timeout", len(marks), 1)
+    # the sweep over the sent queue that contains the marks
+    loops = [(h, blocks) for h, blocks in b.loops() if any(m in blocks for m in marks)]
+    if not loops:
+        raise core.CheckerError("R01.9: retransmission marks are not inside a sweep over the sent queue")
+    hdr, blocks = min(loops, key=lambda x: len(x[1]))
+    starts, cut = [], set()
+    for sb in blocks:
+        if b.blocks[sb]["t"]["k"] != "switch":
+            continue
+        term, outs = b.switch_info(sb)
+        for tgt, _, meaning in outs:
+            if term[0] == "discr" and mir.has_call(term[1], "::next") and meaning == "Some":
+                starts.append(tgt)
+            neg, tt = False, term
+            if tt[0] == "un" and tt[1] == "Not":
+                neg, tt = True, tt[2]
+            if tt[0] == "field" and tt[2] in ("acked", "abandoned") and isinstance(meaning, bool) and (meaning is not neg):
+                cut.add((sb, tgt))        # already acknowledged / abandoned: nothing to do
+    if not starts:
+        raise core.CheckerError("R01.9: cannot find the iterator of the T3 sweep")
+    handled = set(marks) | set(retime) | set(aband)
+    p = b.path_to(starts, hdr, cut_blocks=handled, cut_edges=cut)
+    if p is None:
+        r.ok({"sweep": b.where(hdr), "every outstanding chunk": "needs_retransmit = true | sent_time = now | abandoned = true"})
+    else:
+        r.violate(HT, "t3:skips-chunk", b.where(p[-1] if p else hdr),
+                  "an outstanding (unacked, not abandoned) chunk can pass the T3 sweep without being marked for retransmission, "
+                  "re-timed or abandoned", core.describe_path(b, p))
+    # marking also counts the transmission and restarts the timer
+    for m in marks:
+        r.ok({"site": b.where(m)})
+    return r
+
+
 def run(ctx):
-    return [r01_1(ctx), r01_2(ctx), r01_3(ctx), r01_4(ctx), r01_5(ctx), r01_6(ctx), r01_7(ctx), r01_8(ctx)]
+    return [r01_1(ctx), r01_2(ctx), r01_3(ctx), r01_4(ctx), r01_5(ctx), r01_6(ctx), r01_7(ctx), r01_8(ctx), r01_9(ctx)]
